@@ -29,7 +29,7 @@ def fam_of(b):
 
 
 def sk(t):
-    s = re.sub(r'#[0-9.]+', '', show(strip_deep(t)))
+    s = re.sub(r'#\d+\.\d+', '', show(strip_deep(t)))
     for a, b_ in TWIN_NORMALISE.items():
         s = s.replace(a + '(', b_ + '(')
     return s
